@@ -35,10 +35,12 @@ __CPROVER_ensures(g_d.calls == OLD(g_d.calls) + 1 && g_d.last == item_ref &&
 
 /* General contract (what a caller may rely on for a valid tree): one reference less; when it was the last
  * one the node is released through the configured free and the caller's pointer is nulled. */
-#define DECREF_CONTRACT(REF, IT)                                                                 \
+/* ITP names the item in the post-state through a pointer CBMC can resolve (the parameter itself, or the OLD
+ * value of *item_ref - not the havocked *item_ref, see the replace-mode note in items_ops.h) */
+#define DECREF_CONTRACT(ITP, IT)                                                                 \
   __CPROVER_requires(ALLOC_MODEL_BOUND && ITEM_RW(IT) && (IT)->refcount >= 1)                    \
   __CPROVER_ensures(OLD((IT)->refcount) > 1 ==>                                                  \
-                    ((IT)->refcount == OLD((IT)->refcount) - 1 && g_live == OLD(g_live) &&       \
+                    ((ITP)->refcount == OLD((IT)->refcount) - 1 && g_live == OLD(g_live) &&      \
                      g_free_calls == OLD(g_free_calls)))                                         \
   __CPROVER_ensures(OLD((IT)->refcount) == 1 ==> g_free_calls > OLD(g_free_calls))               \
   /* leaf kinds (combined allocation): exactly the node block goes away */                       \
@@ -74,7 +76,7 @@ __CPROVER_ensures(g_d.calls == OLD(g_d.calls) + 1 && g_d.last == item_ref &&
 
 void cbor_decref(cbor_item_t **item_ref)
 __CPROVER_requires(__CPROVER_rw_ok(item_ref, sizeof(cbor_item_t *)))
-DECREF_CONTRACT(item_ref, *item_ref)
+DECREF_CONTRACT(OLD(*item_ref), *item_ref)
 __CPROVER_requires(HEAP_BLOCK(*item_ref) && DATA_FREEABLE(*item_ref))
 __CPROVER_assigns(*item_ref)
 DECREF_ASSIGNS_G(1, *item_ref)
@@ -95,7 +97,7 @@ __CPROVER_ensures(OLD(item->refcount) == 1 ==> g_free_calls > OLD(g_free_calls))
 __CPROVER_ensures(g_malloc_calls == OLD(g_malloc_calls) && g_realloc_calls == OLD(g_realloc_calls));
 
 void cbor_intermediate_decref(cbor_item_t *item)
-DECREF_CONTRACT(&item, item)
+DECREF_CONTRACT(item, item)
 __CPROVER_requires(HEAP_BLOCK(item) && DATA_FREEABLE(item))
 DECREF_ASSIGNS_G(1, item)
 DECREF_FREES(item);
